@@ -1,8 +1,10 @@
 package props
 
 import (
+	"bytes"
 	"encoding/json"
 	"fmt"
+	"runtime"
 	"testing"
 
 	"github.com/Breeze0806/gobinlog"
@@ -22,6 +24,10 @@ type StabilityCase struct {
 	// FailAt > 0: the handler refuses its FailAt-th transaction with a temporary error, after it has looked at
 	// it (and scribbled over it); whatever the library does next, nobody may be handed the scribbled copy
 	FailAt int `json:",omitempty"`
+	// Leaves: the handler keeps only the value byte slices it was handed and lets go of the transaction,
+	// its events, rows and columns (the garbage collector runs after every delivery); the slices are
+	// verified when the stream has ended
+	Leaves bool `json:",omitempty"`
 }
 
 // scribbleCol overwrites one delivered column in place: its bytes, its name and its absent flag.
@@ -112,6 +118,7 @@ func checkC08(c *StabilityCase) error {
 	var retained, snaps []*gobinlog.Transaction
 	var herr error
 	calls := 0
+	var leaves, leafWant [][]byte
 	handler := func(tx *gobinlog.Transaction, st *attemptState) error {
 		k := len(retained)
 		// (1) what arrives now still equals the model, whatever was done to earlier deliveries
@@ -143,11 +150,23 @@ func checkC08(c *StabilityCase) error {
 		if c.FailAt > 0 && calls == c.FailAt {
 			return tempErr{}
 		}
+		if c.Leaves {
+			eachData(tx, func(_, _, _, _ int, cd *gobinlog.ColumnData) {
+				if cd.Data != nil {
+					leaves = append(leaves, cd.Data)
+					leafWant = append(leafWant, append([]byte{}, cd.Data...))
+				}
+			})
+			retained = append(retained, snap) // the transaction itself is let go
+			snaps = append(snaps, snap)
+			runtime.GC()
+			return nil
+		}
 		retained = append(retained, tx)
 		snaps = append(snaps, snap)
 		return nil
 	}
-	st := ss.run(attempt{l: l, pacing: c.E.Pacing, handler: handler, plan: &fakemaster.ConnPlan{Chop: c.E.Chop}, noSnapshot: true, noMangle: true})
+	st := ss.run(attempt{l: l, pacing: c.E.Pacing, handler: handler, plan: &fakemaster.ConnPlan{Chop: c.E.Chop}, noSnapshot: true, noMangle: true, noRetain: c.Leaves})
 	st.drainLib()
 	if err := st.panicErr(); err != nil {
 		return err
@@ -182,6 +201,14 @@ func checkC08(c *StabilityCase) error {
 	}
 	if err := verify("after the stream ended"); err != nil {
 		return err
+	}
+	if c.Leaves {
+		runtime.GC()
+		for i := range leaves {
+			if !bytes.Equal(leaves[i], leafWant[i]) {
+				return fmt.Errorf("a value kept on its own (its transaction was let go) changed after the stream went on: it was %q, now %q", clipB(leafWant[i]), clipB(leaves[i]))
+			}
+		}
 	}
 	// serialising what was kept is a read: it changes nothing
 	for _, tx := range retained {
@@ -309,6 +336,9 @@ func TestC08(t *testing.T) {
 			c.E.H = gen.History(rt, ho)
 		}
 		c.E.Pacing = rapid.IntRange(0, 1).Draw(rt, "pacing")
+		if !c.Scribble && rapid.IntRange(0, 3).Draw(rt, "keep_leaves") == 0 {
+			c.Leaves = true
+		}
 		if rapid.IntRange(0, 5).Draw(rt, "handler_refuses") == 0 {
 			c.FailAt = rapid.IntRange(1, 4).Draw(rt, "fail_at")
 		}
